@@ -345,6 +345,45 @@ def corpus_texts():
             yield os.path.relpath(path, root), txt
 
 
+NONASCII_TITLES = {"O": ["~Other \u2013 remarques g\u00e9n\u00e9rales", "~O \u00e9\u00e8\u00ea"], "C": ["~Curve \u2013 courbes \u00e9", "~C \u043a\u0440\u0438\u0432\u044b\u0435"],
+                   "X": ["~Tops \u2013 \u043e\u0442\u043c\u0435\u0442\u043a\u0438", "~Zones \u00fc\u00f6\u00e4 \u20ac"], "P": ["~Parameter \u2013 param\u00e8tres"],
+                   "W": ["~Well \u2013 puits n\u00b0 1"]}
+
+
+def disk_titles(run, only=None):
+    import lasio
+    import shutil
+    rng = run.rng
+    tmp = os.path.join(fw.ROOT, ".scratch", "c05disk-%d" % os.getpid())
+    os.makedirs(tmp, exist_ok=True)
+    try:
+        jobs = only
+        if jobs is None:
+            jobs = []
+            for n in range(run.budget(40, 400)):
+                secs = ld.gen_doc(rng)
+                for s_ in secs:
+                    if s_["kind"] in NONASCII_TITLES and rng.random() < 0.7:
+                        s_["title"] = rng.choice(NONASCII_TITLES[s_["kind"]])
+                jobs.append((ld.render(secs, "\n", True), rng.choice(["utf-8", "utf-8-sig", "utf-16"]), rng.choice(["\n", "\r\n"])))
+        for k, (text, codec, eol) in enumerate(jobs):
+            case = {"stream": "disk-titles", "text": text, "codec": codec, "eol": eol}
+            run.case(case, nontrivial=True, tags=["disk-titles", codec])
+            ref = ld.read_full(text)
+            path = os.path.join(tmp, "d%d.las" % k)
+            with open(path, "w", encoding=codec, newline="") as f:
+                f.write(text.replace("\n", eol))
+            kw = {} if codec == "utf-8-sig" else {"encoding": codec}
+            try:
+                got = {"ok": ld.dump_full(lasio.read(path, **kw))}
+            except Exception as e:
+                got = {"err": [type(e).__name__, str(e)[:300]]}
+            if ("err" in ref) != ("err" in got) or ("ok" in ref and ref["ok"] != got["ok"]):
+                run.fail("disk-read-differs", case, {"string": ref, "path": got})
+    finally:
+        shutil.rmtree(tmp, ignore_errors=True)
+
+
 def run(run):
     rng = run.rng
     batch = Batch(run)
@@ -363,6 +402,9 @@ def run(run):
                                                               "sections=%d" % len(secs), "A-last=%s" % (kinds[-1] == "A"), "custom=%d" % kinds.count("X")])
         oracle(run, secs, eol, fin)
         batch.add("generated", text, rng.random() < 0.3, rng.choice(["upper", "upper", "preserve", "lower"]))
+    # (1b) the same documents ON DISK, with characters outside ASCII in the title lines, in encodings of more than one byte per
+    # character (section windows are found by file positions there): the read by path gives what the read of the string gives
+    disk_titles(run)
     # (2) all permutations of 5 sections x 3 title spellings (thorough) / a sample (quick): oracle only on tags
     import itertools
     base = None
@@ -436,6 +478,10 @@ def search(run, disagreements):
 def replay(run, payload):
     c = payload["case"]
     clause = payload["clause"]
+    if clause == "disk-read-differs":
+        before = len(run.failures)
+        disk_titles(run, only=[(c["text"], c["codec"], c["eol"])])
+        return len(run.failures) == before
     if clause == "fixed-input":
         for text, data, keys in FIXED_INPUTS:
             if text == c["text"]:
